@@ -387,6 +387,8 @@ class TermFlow:
             st.insert(0, T("hi32", a))
         elif op == "is_odd":
             st.insert(0, T("is_odd", st.pop(0)))
+        elif op in ("assert", "assertz"):
+            ev.append(("assert", ln, st.pop(0), 1 if op == "assert" else 0))       # the path completes only if term == want
         elif op == "mem_load":
             a = st.pop(0)
             v = ("f", self._id(), "mem_load", 0)
@@ -507,8 +509,6 @@ class PipeFlow(TermFlow):
         elif op == "assert_eqw":
             ev.append(("assert_eqw", ln, tuple(st[:4]), tuple(st[4:8])))
             del st[:8]
-        elif op == "assert":
-            ev.append(("assert", ln, st.pop(0)))
         elif op == "adv":
             ev.append(("adv." + ".".join(imm), ln, tuple(st[:4]), st[4], st[5]))
         elif op == "neq" and not imm:
